@@ -320,3 +320,26 @@ def strip_sizes(v):
     if isinstance(v, tuple):
         return tuple(strip_sizes(x) for x in v)
     return v
+
+
+def richness(v):
+    """Score used to pick the most 'eventful' value of a domain: y-diaeresis strings, long arrays, present optionals."""
+    if isinstance(v, dict):
+        return sum(richness(x) for x in v.values())
+    if isinstance(v, tuple):
+        return 2 * len(v) + sum(richness(x) for x in v)
+    if isinstance(v, str):
+        return 3 * v.count("ÿ") + (1 if v else 0)
+    if v is None:
+        return -1
+    return 0
+
+
+def rich_values(unit, env, n=2, cap=256):
+    """The first value of the domain plus the n-1 richest ones (deterministic)."""
+    vals = list(enumerate_values(unit, env, cap=cap))
+    if not vals:
+        return []
+    ranked = sorted(range(len(vals)), key=lambda i: (-richness(vals[i]), i))
+    picked = [0] + [i for i in ranked if i != 0][: n - 1]
+    return [vals[i] for i in picked]
